@@ -56,6 +56,7 @@ class StatusReport(CborArray):
         BLOCK_UNINTEL = 8  # "Block unintelligible"
         HOP_LIMIT_EXC = 9  # "Hop limit exceeded"
         TRAFIC_PAIRED = 10  # "Traffic pared"
+        BLOCK_UNSUPPORTED = 11  # "Block unsupported"
 
         MISSING_SEC = 12
         ''' Missing security operation '''
